@@ -332,3 +332,23 @@ PROPS['C14'] = dict(
     quick=dict(engines=[rapid('^TestC14aErrorClasses', 8000)] + C14B_ENGINES_QUICK),
     thorough=dict(engines=[rapid('^TestC14aErrorClasses', 200000, shards=14, timeout=1500)] + C14B_ENGINES_THOROUGH),
 )
+
+PROPS['C15'] = dict(
+    claimed=True,
+    level='fault_enumeration',
+    level_text="Pure half: generated (packet, sequence number) pairs through the real encodeValue/decodeValue with an own FNV-1a as "
+               "reference; per generated record the single-byte damage space (every position x all 255 other values) and every "
+               "truncation below 12 bytes are enumerated completely, longer truncations and double damage are measured. "
+               "Black-box half: every value a live client hands to Persistence.Save during generated histories is checked "
+               "against the documented layout (strictly increasing sequence numbers, well-formed packet, right key), "
+               "retransmissions equal the saved packets, and a record altered in one drawn byte is reported by AdoptSession and "
+               "never transmitted nor used as client identifier.",
+    technique='property-based testing (rapid) with exhaustive per-record damage enumeration; independent FNV-1a/layout reference; black-box layout check on a live client',
+    rule="pure: " + C15_RULE + " black-box: histories over {pub1, pub2, releaseAcks, inbound exactly-once messages, appStep, break}, "
+         "then one record (any key incl. the client identifier and inbound markers) altered at a drawn byte with a drawn "
+         "non-zero xor and adopted; non-trivial = at least one record saved.",
+    assumptions=ASSUME_SIM + ["32-bit checksum: damage of two or more bytes is measured, not claimed"],
+    exhaustive_note="the single-byte damage enumeration is complete per generated record of <= 300 bytes; records are sampled",
+    quick=dict(engines=C15_ENGINES_QUICK + [rapid('^TestC15bStoredValues', 1600, steps=25)]),
+    thorough=dict(engines=C15_ENGINES_THOROUGH + [rapid('^TestC15bStoredValues', 40000, shards=14, steps=40, timeout=1500)]),
+)
